@@ -5,9 +5,9 @@ import vlib, tlaval
 
 # which failure classes of the replay belong to which property
 CLASSES = {
-    'C01': {'result', 'len', 'audit', 'panic'},
+    'C01': {'result', 'len', 'audit', 'panic', 'hang'},
     'C02': {'live', 'early_free'},
-    'C03': {'double_free', 'foreign_free', 'interior_free', 'caller', 'private', 'unread_free'},
+    'C03': {'double_free', 'foreign_free', 'interior_free', 'caller', 'private', 'unread_free', 'hang'},
 }
 
 SIM_CFGS = {
@@ -128,7 +128,11 @@ def replay(sc, binary, behs, tag, chunks=8):
             # a crash (fatal error, not a recoverable panic) in the middle of a behaviour: attribute it to that behaviour
             done = {r['id'] for r in got}
             missing = [b for b in part if b['id'] not in done]
-            if missing:
+            if any(r.get('class') == 'hang' for r in got):
+                # the process gave up after a call that never returned (reported for that behaviour); the rest of its share was not run
+                for b in missing:
+                    results[b['id']] = {'id': b['id'], 'ok': None, 'skipped': True}
+            elif missing:
                 results[missing[0]['id']] = {'id': missing[0]['id'], 'ok': False, 'steps': len(missing[0]['steps']), 'step': -1,
                                              'class': 'panic', 'detail': 'test process died: ' + o[-600:], 'op': '?'}
                 for b in missing[1:]:
